@@ -254,6 +254,9 @@ class UmModel:
 		if parsed is None:
 			return None
 		verb, args = parsed
+		if "\0" in verb or any("\0" in a for a in args):
+			# a NUL inside the command line: nothing sensible can be echoed
+			return {"hostile": "embedded-nul", "verb": verb, "args": args}
 		self.probe("cmd-" + (verb if verb in KNOWN_VERBS else "other"))
 		ints = []
 		numeric = True
@@ -783,7 +786,7 @@ class Monitor:
 				else:
 					nb = len(body)
 				usbits = body[:nb] if nb >= 0 else body
-			for e in exps:
+			for e in sorted(exps, key=lambda x: x.optional):  # definite expectations first
 				if e.matched is not None or e.b.tn != d["tn"] or e.b.fn != d["fn"]:
 					continue
 				if nope:
